@@ -88,6 +88,10 @@ def alphabet():
                                          "cpu_clk": 140},
                                 "kw": {"led0": 0x502, "cpu_clk": 160}}, 1028),
         ("mc", "mc", {"hw_ver": 2, "num_buf": 3}, 1028),
+        # a struct file of the caller's (other defaults), directly and
+        # through the controller
+        ("custom", "custom", {"led1": 5, "cpu_clk": 190}, 1028),
+        ("mc_custom", "mc_custom", {"mem_clk": 120}, 1028),
         ("bundled", "kwargs", {"hw_ver": 4}, "bundled"),
         ("mc_wh", "mc_wh", {"hw_ver": 5, "led0": 1}, 1028),
         # overrides that EQUAL the struct file's default, followed by ones
@@ -114,10 +118,30 @@ def shards(tier):
     return out
 
 
-def ref_config(options, now):
+def custom_struct():
+    """A caller-supplied struct file: the bundled one with other defaults
+    for three system variables."""
+    p = os.path.join(tmpdir(), "custom.struct")
+    if not os.path.exists(p):
+        src = open(os.path.join(repo(), "rig", "boot", "sark.struct"),
+                   "rb").read().splitlines()
+        out = []
+        for line in src:
+            t = line.split()
+            if len(t) >= 5 and t[0] in (b"hw_ver", b"cpu_clk", b"led0"):
+                new = {b"hw_ver": b"9", b"cpu_clk": b"175",
+                       b"led0": b"0x00000777"}[t[0]]
+                line = b" ".join([t[0], t[1], t[2], t[3], new])
+            out.append(line)
+        with open(p, "wb") as f:
+            f.write(b"\n".join(out) + b"\n")
+    return p
+
+
+def ref_config(options, now, struct_path=None):
     """First 128 bytes of the packed sv defaults with `options` applied."""
-    sv = parse_struct_file(os.path.join(repo(), "rig", "boot",
-                                        "sark.struct"))["sv"]
+    sv = parse_struct_file(struct_path or os.path.join(
+        repo(), "rig", "boot", "sark.struct"))["sv"]
     data = bytearray(sv["size"])
     vals = {}
     for name, (fmt, off, default, length) in sv["fields"].items():
@@ -176,6 +200,14 @@ def do_call(entry, host, cap, net, mods):
                 exc = AssertionError("caller's sv_overrides dict was "
                                      "modified: %r" % given)
             opts = dict(opts["dict"], **opts["kw"])
+        elif how == "custom":
+            res = bootmod.boot(host, scamp_binary=img,
+                               sark_struct=custom_struct(), **opts)
+        elif how == "mc_custom":
+            mc = mcm.MachineController(host)
+            mc.boot(only_if_needed=False, check_booted=True,
+                    scamp_binary=img, sark_struct=custom_struct(), **opts)
+            res = mc.structs
         elif how == "mc_dict":
             mc = mcm.MachineController(host)
             given = dict(opts)
@@ -261,7 +293,8 @@ def judge_call(entry, dgrams, res, opts, exc, now, acc, case, fresh=None):
         return
     orig = open(image(size), "rb").read()
     acc.outcome("blocks=%d options=%s" % (n, ",".join(sorted(opts)) or "-"))
-    cfg, vals = ref_config(opts, now)
+    cfg, vals = ref_config(opts, now, custom_struct() if how in (
+        "custom", "mc_custom") else None)
     want = bytearray(orig)
     want[384:512] = cfg
     want = bytes(want)
